@@ -1079,3 +1079,122 @@ Theorem build_toocomplex_iff' A B :
   ((exists d, diff_build 0 A B = BRet 1 d) <-> ~ expressible A B) /\
   ((exists d, diff_build 0 A B = BRet 0 d) <-> expressible A B).
 Proof. apply build_toocomplex_iff. apply memattrs_cmp_total. Qed.
+
+(* ------------------------------------------------------------------ *)
+(* one entry as a check on the addressed object plus a state-independent update *)
+
+Definition oldv {A} (rev : bool) (ov nv : A) : A := if rev then nv else ov.
+Definition newv {A} (rev : bool) (ov nv : A) : A := if rev then ov else nv.
+
+Definition guard_ok (rev : bool) (ad : attrdiff) (a : oattr) : bool :=
+  match ad with
+  | DSize _ ov nv => is_numa (a_type a) && (a_lmem a =? oldv rev ov nv)%N
+  | DName ov nv =>
+      match a_name a, oldv rev ov nv, newv rev ov nv with
+      | Some cur, Some o, Some _ => String.eqb cur o
+      | _, _, _ => false
+      end
+  | DInfo nm ov nv => match patch_infos nm (oldv rev ov nv) (newv rev ov nv) (a_infos a) with Some _ => true | None => false end
+  | DOther _ => false
+  end.
+
+Definition eff_fn (rev : bool) (ad : attrdiff) (k : key) (anc : list key) : oattr -> oattr :=
+  match ad with
+  | DSize _ ov nv => size_upd k (k :: anc) (newv rev ov nv) (u64sub (newv rev ov nv) (oldv rev ov nv))
+  | DName ov nv => upd_key k (set_name (newv rev ov nv))
+  | DInfo nm ov nv => upd_key k (fun x => set_infos (patch_total nm (oldv rev ov nv) (newv rev ov nv) (a_infos x)) x)
+  | DOther _ => fun x => x
+  end.
+
+Lemma eff_fn_kp rev ad k anc : forall a, akey (eff_fn rev ad k anc a) = akey a.
+Proof.
+  destruct ad; cbn [eff_fn]; intros a; try reflexivity.
+  - apply size_upd_kp.
+  - apply upd_key_kp. reflexivity.
+  - apply upd_key_kp. reflexivity.
+Qed.
+
+Lemma step_obj_ok rev d i ad T a anc ef :
+  get_obj T d i = Some (a, anc) ->
+  (step rev (EAttr d i ad) T = Ok ef <-> guard_ok rev ad a = true /\ ef = EObj (eff_fn rev ad (akey a) anc)).
+Proof.
+  intros Eg. cbn [step]. rewrite Eg. unfold guard_ok, eff_fn, oldv, newv. destruct ad as [idx ov nv|ov nv|nm ov nv|t].
+  - destruct (is_numa (a_type a)); cbn [negb andb]; [|split; [discriminate|intros [E _]; discriminate E]].
+    destruct ((a_lmem a =? (if rev then nv else ov))%N); cbn [negb].
+    + split; [intros E; injection E as <-; auto|intros [_ ->]; reflexivity].
+    + split; [discriminate|intros [E _]; discriminate E].
+  - destruct (a_name a) as [cur|]; [|split; [discriminate|intros [E _]; discriminate E]].
+    destruct (if rev then nv else ov) as [o|]; [|split; [discriminate|intros [E _]; discriminate E]].
+    destruct (if rev then ov else nv) as [n|].
+    + destruct (String.eqb cur o); cbn [negb].
+      * split; [intros E; injection E as <-; auto|intros [_ ->]; reflexivity].
+      * split; [discriminate|intros [E _]; discriminate E].
+    + destruct (String.eqb cur o); cbn [negb]; split; try discriminate; intros [E _]; discriminate E.
+  - destruct (patch_infos nm (if rev then nv else ov) (if rev then ov else nv) (a_infos a)).
+    + split; [intros E; injection E as <-; auto|intros [_ ->]; reflexivity].
+    + split; [discriminate|intros [E _]; discriminate E].
+  - split; [discriminate|intros [E _]; discriminate E].
+Qed.
+
+Lemma step_tinfo_ok rev d i ad T ef :
+  get_obj T d i = None ->
+  (step rev (EAttr d i ad) T = Ok ef <->
+   (d =? t_nbl T)%Z = true /\ exists nm ov nv, ad = DInfo nm ov nv /\
+     patch_infos nm (oldv rev ov nv) (newv rev ov nv) (t_infos T) <> None /\
+     ef = ETinfos (patch_total nm (oldv rev ov nv) (newv rev ov nv))).
+Proof.
+  intros Eg. cbn [step]. rewrite Eg. unfold oldv, newv. destruct (d =? t_nbl T)%Z.
+  - destruct ad as [idx ov nv|ov nv|nm ov nv|t]; try (split; [discriminate|intros [_ (? & ? & ? & E & _)]; discriminate E]).
+    destruct (patch_infos nm (if rev then nv else ov) (if rev then ov else nv) (t_infos T)) eqn:Ep.
+    + split.
+      * intros E. injection E as <-. split; [reflexivity|]. exists nm, ov, nv. rewrite Ep. repeat split. discriminate.
+      * intros [_ (nm' & ov' & nv' & E & _ & ->)]. injection E as <- <- <-. reflexivity.
+    + split; [discriminate|]. intros [_ (nm' & ov' & nv' & E & H & _)]. injection E as <- <- <-. rewrite Ep in H. contradiction.
+  - split; [discriminate|intros [E _]; discriminate E].
+Qed.
+
+(* in-place patch as a total function, and whether it hits *)
+Fixpoint ptot (nm old new : string) (l : infos_t) : infos_t :=
+  match l with
+  | [] => []
+  | (n, v) :: r => if String.eqb n nm && String.eqb v old then (n, new) :: r else (n, v) :: ptot nm old new r
+  end.
+Definition phit (nm old : string) (l : infos_t) : bool := existsb (fun p => String.eqb (fst p) nm && String.eqb (snd p) old) l.
+
+Lemma patch_infos_ptot nm old new l :
+  patch_infos nm old new l = if phit nm old l then Some (ptot nm old new l) else None.
+Proof.
+  induction l as [|[n v] r IH]; cbn [patch_infos phit existsb ptot fst snd]; [reflexivity|].
+  destruct (String.eqb n nm && String.eqb v old); cbn [orb]; [reflexivity|].
+  fold (phit nm old r). rewrite IH. destruct (phit nm old r); reflexivity.
+Qed.
+Lemma ptot_nohit nm old new l : phit nm old l = false -> ptot nm old new l = l.
+Proof.
+  induction l as [|[n v] r IH]; cbn [phit existsb ptot fst snd]; [reflexivity|].
+  destruct (String.eqb n nm && String.eqb v old); cbn [orb]; [discriminate|]. intros H. rewrite (IH H). reflexivity.
+Qed.
+Lemma patch_total_ptot nm old new l : patch_total nm old new l = ptot nm old new l.
+Proof.
+  unfold patch_total. rewrite patch_infos_ptot. destruct (phit nm old l) eqn:E; [reflexivity|].
+  symmetry. apply ptot_nohit. exact E.
+Qed.
+
+Lemma ptot_comm n1 o1 v1 n2 o2 v2 l : n1 <> n2 ->
+  ptot n1 o1 v1 (ptot n2 o2 v2 l) = ptot n2 o2 v2 (ptot n1 o1 v1 l).
+Proof.
+  intros Hn. induction l as [|[n v] r IH]; cbn [ptot]; [reflexivity|].
+  destruct (String.eqb n n1) eqn:E1, (String.eqb n n2) eqn:E2; cbn [andb].
+  - apply String.eqb_eq in E1, E2. congruence.
+  - destruct (String.eqb v o1); cbn [ptot]; rewrite ?E1, ?E2; cbn [andb]; [reflexivity|].
+    destruct (String.eqb v o1) eqn:Ev; [|rewrite IH; reflexivity]. reflexivity.
+  - destruct (String.eqb v o2) eqn:Ev; cbn [ptot]; rewrite ?E1, ?E2, ?Ev; cbn [andb]; [reflexivity|]. rewrite IH. reflexivity.
+  - cbn [ptot]. rewrite E1, E2. cbn [andb]. rewrite IH. reflexivity.
+Qed.
+Lemma phit_ptot n1 o1 v1 n2 o2 l : n1 <> n2 -> phit n2 o2 (ptot n1 o1 v1 l) = phit n2 o2 l.
+Proof.
+  intros Hn. induction l as [|[n v] r IH]; cbn [ptot]; [reflexivity|].
+  destruct (String.eqb n n1 && String.eqb v o1) eqn:E.
+  - apply andb_true_iff in E. destruct E as [E _]. apply String.eqb_eq in E. subst n.
+    unfold phit. cbn [existsb fst snd]. assert (String.eqb n1 n2 = false) as -> by (apply String.eqb_neq; exact Hn). reflexivity.
+  - unfold phit in *. cbn [existsb]. rewrite IH. reflexivity.
+Qed.
